@@ -209,6 +209,9 @@ def jobs(tier, seed):
                    [dict(name="noop (embedder TLS) nested call trees", fn=check_nested, unwind=400)], native=False))
     from specs import C13
     out.append(Job("C12_noop_recreate", C13.NOOP + '#include "C13_full.inc"\n', [dict(name="noop dispatch in a second incarnation", fn=C13.check_recreate, unwind=400)], native=False))
+    out.append(Job("C12_noop_full_reuse", C13.NOOP + '#include "C13_full.inc"\n', [dict(name="noop: every one of the 64 entry points can be released and reused", fn=C13.check_full_reuse, unwind=400)], native=False))
+    out.append(Job("C12_noop_full_exc", C13.NOOP + '#include "C13_full_exc.inc"\n', [dict(name="noop: a refused registration leaves no trace (exceptions)", fn=C13.check_full_exc, unwind=400)],
+                   native=False, flags=["-D_GLIBCXX_EXTERN_TEMPLATE=0"]))
     fl = ["-D_GLIBCXX_EXTERN_TEMPLATE=0"]
     out.append(Job("C12_dylib_nested", DYLIB + '#include "C12_nested.inc"\n', [dict(name="dylib nested call trees", fn=check_nested, unwind=400)], native=False, flags=fl))
     out.append(Job("C12_dylib_etls_nested", DYLIB_ETLS + '#include "C12_nested.inc"\nRLBOX_DYLIB_SANDBOX_STATIC_VARIABLES();\n',
